@@ -17,6 +17,7 @@ EXPLANATION = (
     "global fields are merged inside send before the fan-out; remove() removes only the given element.  "
     "C12.lock: the hand-over state is read by send() from any thread and swapped by add() with no common lock -- "
     "reported on the pinned tree as a KNOWN FINDING (genuine lost-message race, see DESIGN.md section 4, D5)."
+    "  The buffer is a list: add() iterates the live buffer while send() may append, which a deque answers with RuntimeError."
 )
 RULE = ("obligation = rule instance bound to a statement / loop / flag of BufferingDestination, Destinations.add/"
         "remove/send; non-trivial = CFG paths examined")
@@ -39,7 +40,7 @@ def rule_buffer(chk):
         return
     chk.need(call is not None and init is not None, "BufferingDestination.__call__/__init__ vanished")
     cfg = ctx.cfg(call)
-    mparam = [a.arg for a in call.node.args.args][1]
+    mparam = call.pos_params[1]
     # storage kind
     store = None
     for n in iter_own_nodes(init.node):
@@ -89,6 +90,8 @@ def rule_buffer(chk):
             okb, bound = ctx.try_fold(init, ml)
             if not okb:
                 bound = None
+        problems.append("the buffer is a collections.deque: add() re-delivers by iterating the live buffer (C12.handover requires that), and a deque raises RuntimeError('deque mutated during "
+                        "iteration') as soon as a concurrent send() appends to it, so the rest of the buffered messages is lost; a list tolerates appends during iteration")
     else:
         problems.append("buffer storage %s not recognised" % unparse(store))
     if bound != DOCUMENTED_BOUND and not problems:
@@ -198,7 +201,7 @@ def rule_global(chk):
     ctx = chk.ctx
     send = ctx.func("_output", "Destinations.send")
     cfg = ctx.cfg(send)
-    mparam = [a.arg for a in send.node.args.args][1]
+    mparam = send.pos_params[1]
     ups = [n for n in cfg.live for c, m in calls_in_node(n) if isinstance(c.func, ast.Attribute) and c.func.attr == "update" and isinstance(c.func.value, ast.Name)
            and c.func.value.id == mparam and len(c.args) == 1 and common.is_self_attr(c.args[0], "_globalFields")]
     from . import c08
@@ -216,7 +219,7 @@ def rule_global(chk):
 def rule_remove(chk):
     ctx = chk.ctx
     rm = ctx.func("_output", "Destinations.remove")
-    dparam = [a.arg for a in rm.node.args.args][1]
+    dparam = rm.pos_params[1]
     calls = [n for n in iter_own_nodes(rm.node) if isinstance(n, ast.Call)]
     ok = len(calls) == 1 and isinstance(calls[0].func, ast.Attribute) and calls[0].func.attr == "remove" and common.is_self_attr(calls[0].func.value, "_destinations") \
         and len(calls[0].args) == 1 and isinstance(calls[0].args[0], ast.Name) and calls[0].args[0].id == dparam
